@@ -2,9 +2,7 @@
 SPECIFICATION Spec
 CONSTANTS
   Worlds <- WBig
-  MaxArgs = 3
   MaxTx = 1
-  Families <- FamAll
 VIEW view
 INVARIANTS TypeOK Total AdmittedExecutes LayersInOrder
 PROPERTIES FactsOnlyByExecute PhaseAdvances
